@@ -992,6 +992,8 @@ def readGraph(input_file,
             G = graph_class.normalize(G)
         except networkx.NetworkXError as errmsg:
             raise ValueError("[Parse error in GML input] {} ".format(errmsg))
+        except TypeError as errmsg:
+            raise ValueError("[Wrong graph type in GML input] {} ".format(errmsg))
         except UnicodeEncodeError as errmsg:
             raise ValueError(
                 "[Non-ascii chars in GML file] {} ".format(errmsg))
